@@ -24,7 +24,7 @@ LEVEL = "fault_enumeration"
 RULE = (
     "histories = (nesting of up to 3 contexts drawn from {pool close, pool no-close+prior, pool close+prior, auto_checkpoint file1 every=1, "
     "auto_checkpoint file2 every=3, auto_checkpoint file1 again with other options}, action in {nothing, sample, fit} at each of the 2D-1 body positions, exception at one position or none, "
-    "kind of exception {raise, fault inside the likelihood while sampling}, instance {fresh, already carrying defaults from resume_from_file, real "
+    "kind of exception {raise an Exception, raise a KeyboardInterrupt subclass, fault inside the likelihood while sampling}, instance {fresh, already carrying defaults from resume_from_file, real "
     "ThreadPool}); exhaustive for depth <= 2 (quick) / <= 3 with all single-action bodies (thorough), seeded sample beyond. non-trivial = history with "
     "an exception and depth >= 2, or a sampling action inside a pool context; distinct = the history tuple"
 )
@@ -43,6 +43,10 @@ class Boom(Exception):
     pass
 
 
+class Interrupt(KeyboardInterrupt):
+    """An exit that is not an Exception subclass (Ctrl-C, SystemExit): contexts must restore on these too."""
+
+
 class PoolDouble:
     def __init__(self):
         self.closed = 0
@@ -59,6 +63,10 @@ class PoolDouble:
     def join(self):
         self.joined += 1
 
+    def terminate(self):
+        self.closed += 1
+        self.terminated = True
+
 
 def cases(tier, seed):
     hist = []
@@ -72,7 +80,7 @@ def cases(tier, seed):
                 bodies = [b for b in itertools.product(ACTIONS, repeat=npos) if sum(x != "n" for x in b) <= (2 if tier == "thorough" else 1)]
             for body in bodies:
                 for exc_pos in [None] + list(range(npos)):
-                    kinds = ["raise"] if exc_pos is None or body[exc_pos] != "s" else ["raise", "fault"]
+                    kinds = ["raise"] if exc_pos is None else (["raise", "interrupt"] if body[exc_pos] != "s" else ["raise", "interrupt", "fault"])
                     for kind in kinds:
                         hist.append({"nest": list(nest), "body": list(body), "exc": exc_pos, "kind": kind})
     g = np.random.default_rng([seed, 19])
@@ -147,8 +155,8 @@ def run_history(h, g, counters, viol, t, data, files):
 
     def act(pos, in_pool):
         what = h["body"][pos]
-        if h["exc"] == pos and h["kind"] == "raise":
-            injected["exc"] = Boom(f"position {pos}")
+        if h["exc"] == pos and h["kind"] in ("raise", "interrupt"):
+            injected["exc"] = Boom(f"position {pos}") if h["kind"] == "raise" else Interrupt(f"position {pos}")
             counters["exceptions_injected"] += 1
             raise injected["exc"]
         if what == "s":
@@ -202,12 +210,12 @@ def run_history(h, g, counters, viol, t, data, files):
     raised = None
     try:
         level_run(0, False)
-    except (Boom, InjectedFault) as exc:
+    except (Boom, InjectedFault, Interrupt) as exc:
         raised = exc
     expect_exc = h["exc"] is not None
     if expect_exc and raised is None:
         viol.append({"mech": "C19/injected-exception-swallowed", "detail": where})
-    elif expect_exc and h["kind"] == "raise" and raised is not injected["exc"]:
+    elif expect_exc and h["kind"] in ("raise", "interrupt") and raised is not injected["exc"]:
         viol.append({"mech": "C19/exception-replaced-on-the-way-out", "detail": f"{where}: got {raised!r}"})
     elif not expect_exc and raised is not None:
         raise raised
